@@ -9,6 +9,7 @@
 mod clients;
 mod gen;
 mod oracle;
+mod provision;
 mod rbac;
 mod scenarios;
 mod world;
